@@ -1,7 +1,10 @@
 use crate::fw::Prop;
+pub mod c01;
 
 pub fn get(id: &str) -> Option<Box<dyn Prop>> {
   match id {
+    "C01" => Some(Box::new(c01::C01)),
     _ => None,
   }
 }
+pub const ALL: [&str; 1] = ["C01"];
